@@ -102,8 +102,24 @@ type info struct {
 	status    int
 }
 
+// otherCodec is the codec of the neighbouring mux: nothing it writes decodes.
+type otherCodec struct{}
+
+func (otherCodec) Name() string                    { return "other" }
+func (otherCodec) Marshal(v any) ([]byte, error)   { return []byte("\x00other mux\x00"), nil }
+func (otherCodec) Unmarshal(b []byte, v any) error { return nil }
+func (otherCodec) MarshalAppend(b []byte, v any) ([]byte, error) {
+	return append(b, "\x00other mux\x00"...), nil
+}
+
 func Check(c Case) ([]evid.Violation, info) {
 	w := theWorld()
+	// another mux exists in the process whose options replace the JSON codec and add one more type: the
+	// options of one mux say nothing about another. (Built in every case, so that a replay file does not
+	// depend on what an earlier case left behind in the process.)
+	if _, err := larking.NewMux(larking.CodecOption("application/json", otherCodec{}), larking.CodecOption("application/x-other", otherCodec{})); err != nil {
+		panic(err)
+	}
 	md := w.MsgDesc("un.All")
 	reply := dynamicpb.NewMessage(md)
 	if err := proto.Unmarshal(c.Reply, reply); err != nil {
